@@ -26,6 +26,7 @@ EXPLANATION = (
     "returns the inner reset's state unchanged and maybe_add of its timestep. (R6) precondition of the lax.cond between the auto-reset and the keep branch for every shipped environment: each State leaf with an inferable symbolic shape has the same shape after reset and after step. 'Successive resets use different keys' "
     "follows from R2 plus C10.R1 (State.key of every random generator derives from the reset key). "
     "Not decided: numerical agreement under jit/vmap/scan (XLA semantics).")
+EXPLANATION += " (R5) every random generator's State.key derives from the key argument (shared with C10.R1a): the key split off at an automatic reset differs from episode to episode."
 
 W = "jumanji.wrappers."
 
@@ -47,167 +48,177 @@ def unbatch(t: T) -> T:
     return t.args[0] if t.kind == "batched" else t
 
 
+def is_add_obs(out: T, ts: T, key: T) -> Tuple[bool, str]:
+    """out == ts with extras replaced by (ts.extras plus {key: ts.observation}) and nothing else changed."""
+    out = uncopy(out)
+    why = ""
+    if out.kind == "update" and strip_cast(out.args[0]) is ts and out.args[1] == "extras":
+        ex = out.args[2]
+        if ext_name(ex) == "builtins.setitem":
+            obj, k, v = ex.args[1]
+            return (obj is mk("attr", ts, "extras") and k is key and v is mk("attr", ts, "observation")), why
+        if ex.kind == "dict":
+            d = dict(zip(ex.args[0], ex.args[1]))
+            keeps = any(k.kind == "star" and k.args[0] is mk("attr", ts, "extras") for k in ex.args[0])
+            if not keeps:
+                why = " -- the inner environment's extras are dropped"
+            return (d.get(key) is mk("attr", ts, "observation") and keeps), why
+    return False, why
+
+
 def autoreset_obligations(res: Result, rule: str, vfg: VFG, tree: Tree, clsname: str, batched: bool) -> Dict[str, object]:
-    """Instantiates the C13 obligations on `clsname`; returns facts for sibling agreement."""
+    """Instantiates the C13 obligations on `clsname`; returns facts for sibling agreement.  The wrapper is evaluated
+    twice, once per value of next_obs_in_extras, with the attributes its __init__ fixes for that value: whatever
+    mechanism selects the maybe-add behaviour (a stored function, a flag tested in a method, a dict dispatch), the
+    timesteps it returns must be the inner ones unchanged (False) or with extras[next_obs] = observation added (True)."""
     ci = tree.classes.get(W + clsname)
     if ci is None:
         raise AnalysisError(f"anchor {W}{clsname} not found")
     self_t = mk("self", ci.qual)
-    E = mk("attr", self_t, wrapper_env_attr(tree))
+    EA = wrapper_env_attr(tree)
+    E = mk("attr", self_t, EA)
     init = tree.find_method(ci, "__init__")
     addf = tree.functions.get(W + "add_obs_to_extras")
-    if init is None or addf is None:
-        raise AnalysisError("anchor __init__/add_obs_to_extras not found")
-    # the attribute holding the maybe-add function, by role: the one __init__ fills differently for the two flag values
-    per_flag = {}
-    for flag in (True, False):
-        v2 = VFG(tree, Model(tree))
-        v2.apply_func(init, self_t, ci, [mk("param", init.qual, "env"), const(flag)], {}, None, None)
-        per_flag[flag] = {}
-        for e in v2.events:
-            if e.kind == "store_attr" and e.target is self_t:
-                per_flag[flag].setdefault(e.name, []).append(e)
-    m_names = [n for n in per_flag[True] if n in per_flag[False] and per_flag[True][n][-1].value is not per_flag[False][n][-1].value
-               and not (per_flag[True][n][-1].value.kind == "const" and per_flag[False][n][-1].value.kind == "const")]
-    if len(m_names) != 1:
-        raise AnalysisError(f"{clsname}.__init__: expected exactly one attribute that depends on next_obs_in_extras, got {m_names}")
-    M_NAME = m_names[0]
-    M = mk("attr", self_t, M_NAME)
+    key_t = vfg.resolve_qual(W + "NEXT_OBS_KEY_IN_EXTRAS")
+    if init is None or key_t.kind != "const":
+        raise AnalysisError("anchor __init__ / NEXT_OBS_KEY_IN_EXTRAS not found")
     step = tree.find_method(ci, "step")
     reset = tree.find_method(ci, "reset")
-    if step is None or reset is None or step.cls is not ci:
+    if step is None or reset is None or step.cls.qual == W + "Wrapper":
         raise AnalysisError(f"{clsname}.step/reset not found")
     fn = f"wrappers.{clsname}"
     facts: Dict[str, object] = {}
-    # ---------------- step
-    S, A = mk("param", step.qual, step.params[1]), mk("param", step.qual, step.params[2])
-    r = uncopy(vfg.apply_func(step, self_t, ci, [S, A], {}, None, None))
-    s_in, a_in = (mk("elem", S), mk("elem", A)) if batched else (S, A)
-    stepcall = mk("call", mk("attr", E, "step"), (s_in, a_in), ())
-    s1, t1 = mk("proj", stepcall, 0), mk("proj", stepcall, 1)
-    site = step.loc()
-    if r.kind != "tuple" or len(r.args[0]) != 2:
-        raise AnalysisError(f"{clsname}.step does not return a (state, timestep) pair: {txt(r)}")
-    xs, xt = r.args[0]
-    if batched:
-        okb = xs.kind == "batched" and xt.kind == "batched"
-        res.add(rule + ".R1", site, fn + ".step", "per-element reset decision mapped over the batch", okb,
-                "both results are a map over the batch" if okb else f"state {xs.kind}, timestep {xt.kind}")
-        xs, xt = unbatch(xs), unbatch(xt)
-    if not (xs.kind == "choice" and xt.kind == "choice" and len(xs.args[2]) == 2 and len(xt.args[2]) == 2):
-        # no selection at all: e.g. always reset / never reset
-        res.add(rule + ".R1", site, fn + ".step", "selection on timestep.last() between auto-reset and keep", False,
-                f"returned state {txt(xs, 3, 120)} / timestep {txt(xt, 3, 120)} is not a two-way selection")
-        return facts
-    ps, pt = xs.args[1], xt.args[1]
-    res.add(rule + ".R1", site, fn + ".step", "selection predicate is the inner timestep's last()",
-            ps is pt and is_last_pred(vfg, ps, t1), f"predicate {txt(ps, 5)}")
-    As, Ks = xs.args[2]
-    At, Kt = xt.args[2]
-    res.add(rule + ".R1", site, fn + ".step", "keep-branch returns the inner state unchanged", Ks is s1, f"{txt(Ks, 5)}")
-    keepts = mk("call", M, (t1,), ())
-    res.add(rule + ".R1", site, fn + ".step", "keep-branch returns maybe_add(inner timestep)", Kt is keepts, f"{txt(Kt, 5)}")
-    # ---------------- auto-reset branch
-    ar = tree.find_method(ci, "_auto_reset")
-    site2 = ar.loc() if ar is not None else site
-    fn2 = fn + "._auto_reset"
-    ok_state = False
-    R = None
-    idx = None
-    if As.kind == "proj" and As.args[1] == 0 and As.args[0].kind == "call" and As.args[0].args[0] is mk("attr", E, "reset") \
-            and len(As.args[0].args[1]) == 1 and not As.args[0].args[2]:
-        R = As.args[0]
-        ok_state = True
-    res.add(rule + ".R2", site2, fn2, "auto-reset returns the state produced by the inner reset", ok_state, f"{txt(As, 5)}")
-    if R is not None:
-        K = R.args[1][0]
-        good = False
-        why = f"key {txt(K, 6)}"
-        if K.kind == "proj" and ext_name(K.args[0]) == "jax.random.split":
-            sp = K.args[0]
-            src = sp.args[1][0] if sp.args[1] else None
-            if src is mk("attr", s1, "key"):
-                good = True
-                idx = K.args[1]
-            else:
-                why += " -- split source is not the terminal state's key"
-        elif K is mk("attr", s1, "key"):
-            why += " -- the terminal state's key is reused unsplit"
-        elif not contains(K, s1):
-            why += " -- does not derive from the terminal state"
-        res.add(rule + ".R2", site2, fn2, "reset key is a projection of split(terminal state.key)", good, why)
-        facts["split_index"] = idx
-        exp_obs = mk("attr", mk("proj", R, 1), "observation")
-        okt = At.kind == "update" and At.args[1] == "observation" and strip_cast(At.args[0]) is keepts and At.args[2] is exp_obs
-        why = f"{txt(At, 6, 300)}"
-        if not okt:
-            # diagnose the common wrong shapes
-            fields = []
-            x = At
-            while x.kind in ("update", "copy"):
-                if x.kind == "update":
-                    fields.append(x.args[1])
-                x = x.args[0]
-            if x is t1 and "observation" in fields:
-                why += " -- maybe_add is not applied (or applied after the replacement)"
-            elif x.kind == "call" and x.args[0] is M and x.args[1] and x.args[1][0] is not t1:
-                why += " -- maybe_add receives the already modified timestep: next_obs would be the reset observation"
-            elif set(fields) != {"observation"}:
-                why += f" -- replaced fields {sorted(set(fields))} != ['observation']"
-        res.add(rule + ".R2", site2, fn2, "timestep = replace(maybe_add(terminal timestep), observation=reset observation), nothing else replaced", okt, why)
-        facts["replaced"] = ("observation",) if okt else None
-    # ---------------- reset
-    Kp = mk("param", reset.qual, reset.params[1])
-    rr = uncopy(vfg.apply_func(reset, self_t, ci, [Kp], {}, None, None))
-    k_in = mk("elem", Kp) if batched else Kp
-    rc = mk("call", mk("attr", E, "reset"), (k_in,), ())
-    e_s, e_t = mk("proj", rc, 0), mk("proj", rc, 1)
-    if batched:
-        e_s, e_t = mk("batched", e_s), mk("batched", e_t)
-    exp = mk("tuple", (e_s, mk("call", M, (e_t,), ())))
-    res.add(rule + ".R4", reset.loc(), fn + ".reset", "reset returns (inner state, maybe_add(inner timestep))", rr is exp, f"{txt(rr, 6, 300)}")
-    # ---------------- __init__ wiring of maybe_add
+    from .c15 import mutable_attrs
+    mut = mutable_attrs(ci)
+
+    def matches_maybe_add(flag: bool, x: T, t: T) -> Tuple[bool, str]:
+        x = uncopy(x)
+        if not flag:
+            return (x is t), ""
+        return is_add_obs(x, t, key_t)
+
     for flag in (True, False):
-        v2 = VFG(tree, Model(tree))
-        stores = per_flag[flag][M_NAME]
-        if len(stores) != 1:
-            raise AnalysisError(f"{clsname}.__init__: expected one assignment of {M_NAME} for next_obs_in_extras={flag}, got {len(stores)}")
-        f = stores[0].value
-        ts = mk("param", "probe", "timestep")
-        out = uncopy(v2.apply(f, [ts], {}, None, None))
-        if flag:
-            ok = f.kind == "fn" and f.meta.get("func") is addf
-            why = "add_obs_to_extras" if ok else f"wired to {txt(f)}"
-        else:
-            ok = out is ts
-            why = "identity" if ok else f"returns {txt(out, 5)}"
-        res.add(rule + ".R3", stores[0].loc(), fn + ".__init__", f"next_obs_in_extras={flag} wires maybe_add to {'add_obs_to_extras' if flag else 'the identity'}", ok, why)
-    facts["add_fn"] = addf.qual
+        tag = f"[next_obs_in_extras={flag}] "
+        v0 = VFG(tree, Model(tree))
+        v0.apply_func(init, self_t, init.cls, [mk("param", init.qual, "env"), const(flag)], {}, None, None)
+        attrs: Dict[str, T] = {}
+        for e in v0.events:
+            if e.kind == "store_attr" and e.target is self_t and e.name != EA and e.name not in mut:
+                attrs[e.name] = e.value
+        v = VFG(tree, Model(tree))
+        v.instance_attrs = dict(attrs)
+        # ---------------- step
+        S, A = mk("param", step.qual, step.params[1]), mk("param", step.qual, step.params[2])
+        r = uncopy(v.apply_func(step, self_t, step.cls, [S, A], {}, None, None))
+        s_in, a_in = (mk("elem", S), mk("elem", A)) if batched else (S, A)
+        stepcall = mk("call", mk("attr", E, "step"), (s_in, a_in), ())
+        s1, t1 = mk("proj", stepcall, 0), mk("proj", stepcall, 1)
+        site = step.loc()
+        if r.kind != "tuple" or len(r.args[0]) != 2:
+            raise AnalysisError(f"{clsname}.step does not return a (state, timestep) pair: {txt(r)}")
+        xs, xt = r.args[0]
+        if batched:
+            okb = xs.kind == "batched" and xt.kind == "batched"
+            res.add(rule + ".R1", site, fn + ".step", tag + "per-element reset decision mapped over the batch", okb,
+                    "both results are a map over the batch" if okb else f"state {xs.kind}, timestep {xt.kind}")
+            xs, xt = unbatch(xs), unbatch(xt)
+        if not (xs.kind == "choice" and xt.kind == "choice" and len(xs.args[2]) == 2 and len(xt.args[2]) == 2):
+            # no selection at all: e.g. always reset / never reset
+            res.add(rule + ".R1", site, fn + ".step", tag + "selection on timestep.last() between auto-reset and keep", False,
+                    f"returned state {txt(xs, 3, 120)} / timestep {txt(xt, 3, 120)} is not a two-way selection")
+            continue
+        ps, pt = xs.args[1], xt.args[1]
+        res.add(rule + ".R1", site, fn + ".step", tag + "selection predicate is the inner timestep's last()",
+                ps is pt and is_last_pred(v, ps, t1), f"predicate {txt(ps, 5)}")
+        As, Ks = xs.args[2]
+        At, Kt = xt.args[2]
+        res.add(rule + ".R1", site, fn + ".step", tag + "keep-branch returns the inner state unchanged", Ks is s1, f"{txt(Ks, 5)}")
+        okk, wk = matches_maybe_add(flag, Kt, t1)
+        res.add(rule + (".R1" if not flag else ".R3"), site, fn + ".step",
+                tag + ("keep-branch returns the inner timestep unchanged" if not flag else "keep-branch returns the inner timestep with extras[next_obs] = its observation"),
+                okk, f"{txt(Kt, 5)}{wk}")
+        # ---------------- auto-reset branch
+        ar = tree.find_method(ci, "_auto_reset")
+        site2 = ar.loc() if ar is not None else site
+        fn2 = fn + "._auto_reset"
+        ok_state = False
+        R = None
+        idx = None
+        if As.kind == "proj" and As.args[1] == 0 and As.args[0].kind == "call" and As.args[0].args[0] is mk("attr", E, "reset") \
+                and len(As.args[0].args[1]) == 1 and not As.args[0].args[2]:
+            R = As.args[0]
+            ok_state = True
+        res.add(rule + ".R2", site2, fn2, tag + "auto-reset returns the state produced by the inner reset", ok_state, f"{txt(As, 5)}")
+        if R is not None:
+            K = R.args[1][0]
+            good = False
+            why = f"key {txt(K, 6)}"
+            if K.kind == "proj" and ext_name(K.args[0]) == "jax.random.split":
+                sp = K.args[0]
+                src = sp.args[1][0] if sp.args[1] else None
+                if src is mk("attr", s1, "key"):
+                    good = True
+                    idx = K.args[1]
+                else:
+                    why += " -- split source is not the terminal state's key"
+            elif K is mk("attr", s1, "key"):
+                why += " -- the terminal state's key is reused unsplit"
+            elif not contains(K, s1):
+                why += " -- does not derive from the terminal state"
+            res.add(rule + ".R2", site2, fn2, tag + "reset key is a projection of split(terminal state.key)", good, why)
+            facts["split_index"] = idx
+            exp_obs = mk("attr", mk("proj", R, 1), "observation")
+            base_ok, wb = (False, "")
+            if At.kind == "update" and At.args[1] == "observation":
+                base_ok, wb = matches_maybe_add(flag, strip_cast(At.args[0]), t1)
+            okt = At.kind == "update" and At.args[1] == "observation" and base_ok and At.args[2] is exp_obs
+            why = f"{txt(At, 6, 300)}{wb}"
+            if not okt:
+                # diagnose the common wrong shapes
+                fields = []
+                x = At
+                while x.kind in ("update", "copy"):
+                    if x.kind == "update":
+                        fields.append(x.args[1])
+                    x = x.args[0]
+                if flag and x is t1 and set(fields) == {"observation"}:
+                    why += " -- next_obs is not added (or added after the replacement)"
+                elif flag and "extras" in fields and fields.index("extras") < fields.index("observation") if ("extras" in fields and "observation" in fields) else False:
+                    why += " -- next_obs is taken from the already modified timestep: it would be the reset observation"
+                elif set(fields) - {"extras"} != {"observation"}:
+                    why += f" -- replaced fields {sorted(set(fields))} != ['observation']"
+            res.add(rule + ".R2", site2, fn2, tag + "timestep = replace(maybe_add(terminal timestep), observation=reset observation), nothing else replaced", okt, why)
+            facts["replaced"] = ("observation",) if okt else None
+        # ---------------- reset
+        Kp = mk("param", reset.qual, reset.params[1])
+        rr = uncopy(v.apply_func(reset, self_t, reset.cls, [Kp], {}, None, None))
+        k_in = mk("elem", Kp) if batched else Kp
+        rc = mk("call", mk("attr", E, "reset"), (k_in,), ())
+        e_s, e_t = mk("proj", rc, 0), mk("proj", rc, 1)
+        if batched:
+            e_s, e_t = mk("batched", e_s), mk("batched", e_t)
+        okr, wr = False, ""
+        if rr.kind == "tuple" and len(rr.args[0]) == 2 and rr.args[0][0] is e_s:
+            okr, wr = matches_maybe_add(flag, rr.args[0][1], e_t)
+        res.add(rule + ".R4", reset.loc(), fn + ".reset", tag + "reset returns (inner state, maybe_add(inner timestep))", okr, f"{txt(rr, 6, 300)}{wr}")
+        for q, f_ in v.visited_funcs.items():
+            vfg.visited_funcs.setdefault(q, f_)
+    facts["add_fn"] = addf.qual if addf is not None else None
     return facts
 
 
 def add_obs_obligation(res: Result, rule: str, vfg: VFG, tree: Tree):
     addf = tree.functions.get(W + "add_obs_to_extras")
     key = vfg.resolve_qual(W + "NEXT_OBS_KEY_IN_EXTRAS")
-    if addf is None or key.kind != "const":
-        raise AnalysisError("anchor add_obs_to_extras / NEXT_OBS_KEY_IN_EXTRAS not found")
+    if key.kind != "const":
+        raise AnalysisError("anchor NEXT_OBS_KEY_IN_EXTRAS not found")
+    if addf is None:
+        return   # the helper was inlined: its effect is decided at every use (R1/R2/R4 with next_obs_in_extras=True)
     ts = mk("param", addf.qual, addf.params[0])
     out = uncopy(vfg.apply_func(addf, None, None, [ts], {}, None, None))
-    ok = False
-    why = txt(out, 6, 300)
-    if out.kind == "update" and strip_cast(out.args[0]) is ts and out.args[1] == "extras":
-        ex = out.args[2]
-        if ext_name(ex) == "builtins.setitem":
-            obj, k, v = ex.args[1]
-            ok = obj is mk("attr", ts, "extras") and k is key and v is mk("attr", ts, "observation")
-        elif ex.kind == "dict":
-            d = dict(zip(ex.args[0], ex.args[1]))
-            keeps = any(k.kind == "star" and k.args[0] is mk("attr", ts, "extras") for k in ex.args[0])
-            ok = d.get(key) is mk("attr", ts, "observation") and keeps
-            if not keeps:
-                why += " -- the inner environment's extras are dropped"
+    ok, why = is_add_obs(out, ts, key)
     res.add(rule + ".R3", addf.loc(), "wrappers.add_obs_to_extras",
-            "stores timestep.observation under NEXT_OBS_KEY_IN_EXTRAS and changes only extras", ok, why)
+            "stores timestep.observation under NEXT_OBS_KEY_IN_EXTRAS and changes only extras", ok, txt(out, 6, 300) + why)
 
 
 def check(tier: str) -> Result:
@@ -218,7 +229,9 @@ def check(tier: str) -> Result:
     add_obs_obligation(res, "C13", vfg, tree)
     from . import shape_rules
     n_shapes = shape_rules.state_shape_obligations(res, tree, "C13.R6")
-    res.analysed = {"classes": ["jumanji.wrappers.AutoResetWrapper"], "functions": sorted(vfg.visited_funcs), "state_leaf_shapes_compared": n_shapes}
+    from .common import borrow
+    n_keys = borrow(res, "c10", {"C10.R1a": "C13.R5"})
+    res.analysed = {"generator_key_obligations": n_keys, "classes": ["jumanji.wrappers.AutoResetWrapper"], "functions": sorted(vfg.visited_funcs), "state_leaf_shapes_compared": n_shapes}
     res.assumptions = ["the wrapped environment is abstract (any Environment); lax.cond selects one branch result",
                        "jax.random.split yields keys distinct from its input"]
     if len(res.obligations) < 10:
